@@ -146,7 +146,32 @@ async def drive_tool(spec, run, steps=None, close=False, keep_items=True):
             except BaseException as err:  # noqa
                 run.close_exc = err
             run.closed = True
+        if run.end != "cancel":
+            _read_on(run)
     return run
+
+
+def _read_on(run):
+    """
+    The owner of a regular generator that was handed to the tool reads on from it once the tool is done with
+    (stopped, closed or failed): it gets the next item - the generator is the owner's, not the tool's to close.
+    """
+    seen = set()
+    if getattr(run.world, "fault_fired", False):
+        return  # (after a prepared failure nobody is to touch the parties again: that is C06's own clause)
+    for src in run.srcs:
+        if getattr(src.plan, "as_gen", False) and id(src.obj) not in seen:
+            seen.add(id(src.obj))
+            try:
+                item = next(src.obj)
+            except StopIteration:
+                run.log.append(("rest", src.name, "stop"))
+            except BaseException as err:
+                if isinstance(err, Cancel):
+                    raise
+                run.log.append(("rest", src.name, "raised", type(err).__name__))
+            else:
+                run.log.append(("rest", src.name, ident(item)))
 
 
 def ref_tool(spec, steps=None, fault=None, fault2=None):
@@ -199,6 +224,7 @@ def ref_tool(spec, steps=None, fault=None, fault2=None):
     else:
         run.end = "partial"
     run.n_steps_done = n
+    _read_on(run)
     return run
 
 
